@@ -131,6 +131,16 @@ theorem run_newCellOf (v : Option (List Nat)) (h : Heap) :
 @[simp] theorem ofCell_some (l : List Nat) : ofCell (some l) = some (l.map Int.ofNat) := rfl
 @[simp] theorem ofCell_eq_none (v : Option (List Nat)) : ofCell v = none ↔ v = none := by cases v <;> simp [ofCell]
 
+theorem set_get_self (h : Heap) (c : Nat) (v) (hc : c < h.cells.length) (hg : h.get c = v) : h.set c v = h := by
+  cases h with | mk cells =>
+  simp only [Heap.get, Heap.set] at *
+  congr 1
+  rw [← hg]
+  simp [List.getD_eq_getElem?_getD, List.getElem?_eq_getElem hc]
+
+theorem set_set (h : Heap) (c : Nat) (v w) : (h.set c v).set c w = h.set c w := by
+  simp [Heap.set, List.set_set]
+
 /-! ### lists -/
 
 theorem makeSlice_len {β γ : Type} (l : List γ) (z : β) : Go.makeSlice (l.length : Int) z = pure (List.replicate l.length z) := by
@@ -263,6 +273,34 @@ theorem forRangeM_inv {β σ : Type} (body : Int → β → σ → HM σ) (step 
       body k x s h = (h, .ok (step k x s), []) ∧ P (k + 1) (step k x s))
     (s : σ) (hs : P 0 s) : forRangeM data body s h = (h, .ok (rangeFold step 0 data s), []) :=
   forRangeAux_inv body step P data h hb data [] s rfl hs
+
+/-- a range loop whose body changes the heap without events or panics, under an invariant `P index state heap` -/
+theorem forRangeAux_heap {β σ : Type} (body : Int → β → σ → HM σ) (P : Nat → σ → Heap → Prop) (data : List β)
+    (hb : ∀ (k : Nat) (x : β) (s : σ) (h : Heap), data[k]? = some x → P k s h →
+      ∃ h' s', body k x s h = (h', .ok s', []) ∧ P (k + 1) s' h') :
+    ∀ (xs pre : List β) (s : σ) (h : Heap), data = pre ++ xs → P pre.length s h →
+      ∃ h' s', forRangeAux body (pre.length : Int) xs s h = (h', .ok s', []) ∧ P data.length s' h' := by
+  intro xs
+  induction xs with
+  | nil => intro pre s h hd hp; exact ⟨h, s, rfl, by simpa [hd] using hp⟩
+  | cons x xs ih =>
+    intro pre s h hd hp
+    have hk : data[pre.length]? = some x := by rw [hd]; simp
+    obtain ⟨h1, s1, e1, p1⟩ := hb pre.length x s h hk hp
+    have := ih (pre ++ [x]) s1 h1 (by simp [hd]) (by simpa using p1)
+    simp only [List.length_append, List.length_cons, List.length_nil, Nat.zero_add, Int.natCast_add, Int.cast_ofNat_Int] at this
+    obtain ⟨h2, s2, e2, p2⟩ := this
+    refine ⟨h2, s2, ?_, p2⟩
+    unfold forRangeAux
+    rw [run_bind_ok e1, prep_nil]
+    exact e2
+
+theorem forRangeM_heap {β σ : Type} (body : Int → β → σ → HM σ) (P : Nat → σ → Heap → Prop) (data : List β)
+    (hb : ∀ (k : Nat) (x : β) (s : σ) (h : Heap), data[k]? = some x → P k s h →
+      ∃ h' s', body k x s h = (h', .ok s', []) ∧ P (k + 1) s' h')
+    (s : σ) (h : Heap) (hs : P 0 s h) :
+    ∃ h' s', forRangeM data body s h = (h', .ok s', []) ∧ P data.length s' h' :=
+  forRangeAux_heap body P data hb data [] s h rfl hs
 
 /-! ### `for` loops -/
 
